@@ -480,3 +480,223 @@ def rule_r7(ctx, sylvia_expanded, rule="R7.remote"):
     der = " ".join(a["tokens"] for a in addr["attrs"] if a["path"] == "derive")
     if not ok or "Serialize" not in der or "Deserialize" not in der:
         ctx.violation(rule, ["addr-newtype"], "cosmwasm-std/src/addresses.rs", "pub struct Addr(String) with derived Serialize/Deserialize and no serde attribute", {"style": addr["style"], "derive": der})
+
+
+# ------------------------------------------------------------------ R4 / R5 / R6: flow contracts over small runtime functions
+
+IDENTITY_METHODS = {"clone", "to_owned", "to_string", "into", "as_ref", "to_vec", "as_str", "borrow", "as_slice", "deref", "into_owned", "cloned"}
+IDENTITY_FUNCS = {("Addr", "unchecked"), ("String", "from"), ("Cow", "Owned"), ("Cow", "Borrowed"), ("Into", "into"), ("From", "from"), ("Binary", "from"), ("Binary", "new")}
+
+
+def fprov(e, env):
+    """field provenance term of an expression"""
+    e = A.strip_expr(e)
+    k = e["k"]
+    if k == "path" and not e.get("qself"):
+        ids = [s["id"] for s in e["path"]["segs"]]
+        if len(ids) == 1:
+            if ids[0] == "self":
+                return ("self",)
+            if ids[0] == "None":
+                return ("none",)
+            if ids[0] == "PhantomData":
+                return ("phantom",)
+            return env.get(ids[0], ("free", ids[0]))
+        if ids[-1] == "PhantomData":
+            return ("phantom",)
+        return ("const", "::".join(ids[-2:]))
+    if k == "field":
+        b = fprov(e["base"], env)
+        if b == ("self",):
+            return ("self", e["member"])
+        return ("field", b, e["member"])
+    if k == "ref" or (k == "unary" and e["op"] == "*"):
+        return fprov(e["expr"], env)
+    if k == "mcall":
+        if e["method"] in IDENTITY_METHODS and not e["args"]:
+            return fprov(e["recv"], env)
+        if e["method"] == "unwrap_or_default" and not e["args"]:
+            return ("or-default", fprov(e["recv"], env))
+        if e["method"] == "default" and not e["args"]:
+            return ("default",)
+        return ("mcall", e["method"], fprov(e["recv"], env), tuple(fprov(a, env) for a in e["args"]))
+    if k == "call" and e["func"].get("k") == "path":
+        ids = [s["id"] for s in e["func"]["path"]["segs"]]
+        if ids[-1] == "Some" and len(e["args"]) == 1:
+            return ("some", fprov(e["args"][0], env))
+        if tuple(ids[-2:]) in IDENTITY_FUNCS and len(e["args"]) == 1:
+            return fprov(e["args"][0], env)
+        if ids[-1] in ("default",) and not e["args"]:
+            return ("default",)
+        if ids[-2:] == ["Vec", "new"] and not e["args"]:
+            return ("empty",)
+        if ids[-1] == "PhantomData" or (len(ids) >= 2 and ids[-2] == "PhantomData"):
+            return ("phantom",)
+        return ("call", "::".join(ids[-2:]), tuple(fprov(a, env) for a in e["args"]))
+    if k == "macro" and e["path"].split("::")[-1] == "vec" and not e["tt"]:
+        return ("empty",)
+    if k == "array" and not e["elems"]:
+        return ("empty",)
+    if k == "lit":
+        return ("lit", e.get("v"))
+    if k == "struct":
+        return ("struct", e["path"]["segs"][-1]["id"])
+    return ("other", k)
+
+
+def fn_env(fn):
+    env = {}
+    for i in fn["inputs"]:
+        if i.get("recv"):
+            continue
+        if i["pat"]["k"] == "ident":
+            env[i["pat"]["name"]] = ("param", i["pat"]["name"])
+    return env
+
+
+def analyse_result(fn):
+    """Normal form of what a small function returns."""
+    env = fn_env(fn)
+    overlay = {}
+    stmts, tail = A.block_parts(fn["body"])
+    for s in stmts:
+        if s["k"] == "let" and s["pat"]["k"] == "ident" and s["init"] is not None:
+            env[s["pat"]["name"]] = fprov(s["init"], env)
+            continue
+        if s["k"] == "expr":
+            e = A.strip_expr(s["expr"])
+            if e["k"] == "assign":
+                l = fprov(e["left"], env)
+                if len(l) == 2 and l[0] == "self":
+                    overlay[l[1]] = fprov(e["right"], env)
+                    continue
+        raise CheckError(f"unrecognised statement in {fn['name']} (line {s['ln']})")
+    if tail is None:
+        raise CheckError(f"{fn['name']}: no tail expression")
+    t = A.strip_expr(tail)
+    if t["k"] == "struct":
+        fields = {fl["member"]: fprov(fl["expr"], env) for fl in t["fields"]}
+        rest = fprov(t["rest"], env) if t.get("rest") is not None else None
+        return {"kind": "struct", "name": t["path"]["segs"][-1]["id"], "fields": fields, "rest": rest}
+    p = fprov(t, env)
+    if p == ("self",):
+        return {"kind": "self", "overlay": overlay}
+    return {"kind": "value", "prov": p, "expr": t}
+
+
+def find_inherent_fn(ast, type_last, fn_name, self_arg_contains=None):
+    out = []
+    for it in ast["items"]:
+        if it.get("k") == "impl" and it.get("trait") is None and it["self_ty"]["k"] == "path" and it["self_ty"]["path"]["segs"][-1]["id"] == type_last:
+            if self_arg_contains and self_arg_contains not in A.type_str(it["self_ty"]):
+                continue
+            for f in it["items"]:
+                if f.get("k") == "fn" and f["name"] == fn_name:
+                    out.append(f)
+    return out
+
+
+P = lambda n: ("param", n)
+S = lambda n: ("self", n)
+
+FLOW_CONTRACTS = [
+    # (rule, file, type, fn, selector, expected)
+    ("R4", "sylvia/src/types.rs", "ExecutorBuilder", "new", "EmptyExecutorBuilderState", {"struct": "Self", "fields": {"contract": P("contract"), "funds": ("empty",), "msg": ("default",), "_state": ("phantom",)}}),
+    ("R4", "sylvia/src/types.rs", "ExecutorBuilder", "new", "ReadyExecutorBuilderState", {"struct": "Self", "fields": {"contract": P("contract"), "funds": P("funds"), "msg": P("msg"), "_state": ("phantom",)}}),
+    ("R4", "sylvia/src/types.rs", "ExecutorBuilder", "with_funds", None, {"struct": "Self", "fields": {"funds": P("funds")}, "rest": ("self",)}),
+    ("R4", "sylvia/src/types.rs", "ExecutorBuilder", "funds", None, {"value": S("funds")}),
+    ("R4", "sylvia/src/types.rs", "ExecutorBuilder", "contract", None, {"value": S("contract")}),
+    ("R4", "sylvia/src/types.rs", "ExecutorBuilder", "build", None, {"struct": "Execute", "fields": {"contract_addr": S("contract"), "msg": S("msg"), "funds": S("funds")}}),
+    ("R4", "sylvia/src/types.rs", "Remote", "executor", None, {"value": ("call", "ExecutorBuilder::new", (S("addr"),))}),
+    ("R4", "sylvia/src/types.rs", "Remote", "querier", None, {"struct": "BoundQuerier", "fields": {"contract": S("addr"), "querier": P("querier"), "_phantom": ("phantom",)}}),
+    ("R4", "sylvia/src/types.rs", "Remote", "update_admin", None, {"struct": "UpdateAdmin", "fields": {"contract_addr": S("addr"), "admin": P("new_admin")}}),
+    ("R4", "sylvia/src/types.rs", "Remote", "clear_admin", None, {"struct": "ClearAdmin", "fields": {"contract_addr": S("addr")}}),
+    ("R4", "sylvia/src/types.rs", "BoundQuerier", "borrowed", None, {"struct": "Self", "fields": {"contract": P("contract"), "querier": P("querier"), "_phantom": ("phantom",)}}),
+    ("R4", "sylvia/src/types.rs", "BoundQuerier", "querier", None, {"value": S("querier")}),
+    ("R4", "sylvia/src/types.rs", "BoundQuerier", "contract", None, {"value": S("contract")}),
+    ("R5", "sylvia/src/builder/instantiate.rs", "InstantiateBuilder", "new", None, {"struct": "Self", "fields": {"msg": P("msg"), "code_id": P("code_id"), "admin": ("none",), "label": ("none",), "funds": ("empty",)}}),
+    ("R5", "sylvia/src/builder/instantiate.rs", "InstantiateBuilder", "with_label", None, {"self": {"label": ("some", P("label"))}}),
+    ("R5", "sylvia/src/builder/instantiate.rs", "InstantiateBuilder", "with_admin", None, {"self": {"admin": ("some", P("admin"))}}),
+    ("R5", "sylvia/src/builder/instantiate.rs", "InstantiateBuilder", "with_funds", None, {"self": {"funds": P("funds")}}),
+    ("R5", "sylvia/src/builder/instantiate.rs", "InstantiateBuilder", "build", None, {"struct": "Instantiate", "fields": {"code_id": S("code_id"), "msg": S("msg"), "admin": S("admin"), "label": ("or-default", S("label")), "funds": S("funds")}}),
+    ("R5", "sylvia/src/builder/instantiate.rs", "InstantiateBuilder", "build2", None, {"struct": "Instantiate2", "fields": {"code_id": S("code_id"), "msg": S("msg"), "admin": S("admin"), "label": ("or-default", S("label")), "funds": S("funds"), "salt": P("salt")}}),
+    ("R6", "sylvia/src/multitest.rs", "ExecProxy", "new", None, {"struct": "ExecProxy", "fields": {"funds": ("empty",), "contract_addr": P("contract_addr"), "msg": P("msg"), "app": P("app"), "phantom": ("phantom",)}}),
+    ("R6", "sylvia/src/multitest.rs", "ExecProxy", "with_funds", None, {"struct": "Self", "fields": {"funds": P("funds")}, "rest": ("self",)}),
+    ("R6", "sylvia/src/multitest.rs", "MigrateProxy", "new", None, {"struct": "Self", "fields": {"contract_addr": P("contract_addr"), "msg": P("msg"), "app": P("app"), "phantom": ("phantom",)}}),
+    ("R6", "sylvia/src/multitest.rs", "Proxy", "new", None, {"struct": "Proxy", "fields": {"contract_addr": P("contract_addr"), "app": P("app"), "_phantom": ("phantom",)}}),
+]
+
+
+def rule_flow_contracts(ctx, which):
+    for rule, rel, ty, fn_name, selector, exp in FLOW_CONTRACTS:
+        if rule not in which:
+            continue
+        ast = runtime_ast(rel)
+        fns = find_inherent_fn(ast, ty, fn_name, selector)
+        key = [rel, ty, fn_name] + ([selector] if selector else [])
+        rid = f"{rule}.{ty}.{fn_name}"
+        ctx.inst(rule + ".flow", distinct=tuple(key))
+        if len(fns) != 1:
+            ctx.violation(rule + ".flow", key + ["anchor"], rel, f"one fn {ty}::{fn_name}", len(fns), "anchor missing: the function the property relies on is gone or duplicated")
+            continue
+        f = fns[0]
+        where = f"{rel}:{f['ln']} {ty}::{fn_name}"
+        try:
+            nf = analyse_result(f)
+        except CheckError as e:
+            ctx.unrecognised(rule + ".flow", key, where, str(e))
+            continue
+        if "value" in exp:
+            if nf["kind"] != "value" or nf["prov"] != exp["value"]:
+                ctx.violation(rule + ".flow", key + ["value"], where, exp["value"], nf.get("prov", nf["kind"]), "runtime helper forwards the stored value")
+            continue
+        if "self" in exp:
+            if nf["kind"] != "self" or nf["overlay"] != exp["self"]:
+                ctx.violation(rule + ".flow", key + ["setter"], where, f"self with only {exp['self']} replaced", nf.get("overlay", nf["kind"]), "a setter replaces exactly one field")
+            continue
+        if nf["kind"] != "struct" or nf["name"] not in (exp["struct"], ty if exp["struct"] == "Self" else exp["struct"], "Self" if exp["struct"] == ty else exp["struct"]):
+            ctx.violation(rule + ".flow", key + ["shape"], where, f"builds {exp['struct']}", nf.get("name", nf["kind"]), "")
+            continue
+        if exp.get("rest") != nf.get("rest"):
+            ctx.violation(rule + ".flow", key + ["rest"], where, exp.get("rest"), nf.get("rest"), "remaining fields come from self")
+        if nf["fields"] != exp["fields"]:
+            diff = {k: (exp["fields"].get(k), nf["fields"].get(k)) for k in set(exp["fields"]) | set(nf["fields"]) if exp["fields"].get(k) != nf["fields"].get(k)}
+            ctx.violation(rule + ".flow", key + ["fields"] + sorted(diff), where, {k: v[0] for k, v in diff.items()}, {k: v[1] for k, v in diff.items()},
+                          "each field of the built message comes from the builder field of the same meaning")
+
+
+def rule_r6_calls(ctx, rule="R6.call"):
+    """ExecProxy::call / MigrateProxy::call hand the stored values to the chain operation; error mapping tries the contract error first."""
+    rel = "sylvia/src/multitest.rs"
+    ast = runtime_ast(rel)
+    specs = [("ExecProxy", "execute_contract", [P("sender"), S("contract_addr"), S("msg"), S("funds")]),
+             ("MigrateProxy", "migrate_contract", [P("sender"), S("contract_addr"), S("msg"), P("new_code_id")])]
+    for ty, op, want in specs:
+        fns = find_inherent_fn(ast, ty, "call")
+        ctx.inst(rule, distinct=ty)
+        if len(fns) != 1:
+            ctx.violation(rule, [rel, ty, "anchor"], rel, f"one fn {ty}::call", len(fns), "anchor missing")
+            continue
+        f = fns[0]
+        env = fn_env(f)
+        calls = A.find_all(f["body"], lambda n: isinstance(n, dict) and n.get("x") and n.get("k") == "mcall" and n["method"].endswith("_contract"))
+        if len(calls) != 1 or calls[0]["method"] != op:
+            ctx.violation(rule, [rel, ty, "operation"], f"{rel}:{f['ln']}", f"exactly one call of {op}", [c["method"] for c in calls], "proxy performs the corresponding chain operation once")
+            continue
+        got = [fprov(a, env) for a in calls[0]["args"]]
+        if got != want:
+            ctx.violation(rule, [rel, ty, "args"], f"{rel}:{calls[0]['ln']}", want, got, "sender, contract address, message and funds / code id are the stored ones")
+        # app: (*self.app).app_mut()
+        r = A.strip_expr(calls[0]["recv"])
+        okapp = r["k"] == "mcall" and r["method"] == "app_mut" and fprov(r["recv"], env) == S("app")
+        if not okapp:
+            ctx.violation(rule, [rel, ty, "app"], f"{rel}:{calls[0]['ln']}", "operation performed on self.app", "other", "")
+        # error mapping: a downcast to the contract error type happens (first)
+        downs = A.find_all(f["body"], lambda n: isinstance(n, dict) and n.get("x") and n.get("k") == "mcall" and n["method"] in ("downcast", "is"))
+        first_t = None
+        for d in downs:
+            if d.get("turbofish"):
+                first_t = A.type_str(d["turbofish"][0])
+                break
+        if not downs or (first_t not in (None, "Error")):
+            ctx.violation(rule, [rel, ty, "error-downcast"], f"{rel}:{f['ln']}", "error downcast to the contract error type attempted first", first_t, "a handler error surfaces as the contract's error type")
